@@ -334,6 +334,8 @@ def groupby_cases(draw, tier):
             "keyfl": draw(st.sampled_from(["def", "async"])),
             "fl": draw(st.sampled_from(["agen", "aclass", "aplain", "aproxy"])),
             "csusp": draw(st.booleans()), "mode": draw(st.sampled_from(["hooks", "bare"])),
+            # the source's own aclose() fails once and leaves it open: closing the handle again must close it
+            "cfault": draw(st.sampled_from([False, False, True])),
             "fault": draw(st.one_of(st.none(), st.tuples(st.sampled_from(["s0", "key"]), st.integers(1, 5))))}
 
 
@@ -344,6 +346,8 @@ def check_groupby(case):
     fault = case["fault"]
     spec = {"fl": case["fl"], "csusp": case["csusp"],
             "fault": {"at": fault[1], "exc": "Fault"} if fault and fault[0] == "s0" else None}
+    if case.get("cfault") and case["fl"] != "agen":
+        spec.update(cfault="LookupError", cfault_open=True)
     src = make_source(ctx, "s0", mats(case["items"]), spec, "a")
     keyfn = None
     if case["key"] is not None:
@@ -378,11 +382,14 @@ def check_groupby(case):
                 if planned_name(ctx, exc) is None:
                     problems.append(("unexpected-raise", step, f"{op}: {exc!r}"[:160]))
                     return
-        try:
-            await gb.aclose()
-        except BaseException as exc:  # noqa: B902
-            problems.append(("aclose-raises", "final", repr(exc)[:120]))
-            return
+        for attempt in (1, 2):
+            try:
+                await gb.aclose()
+                break
+            except BaseException as exc:  # noqa: B902
+                if attempt == 2 or planned_name(ctx, exc) is None:
+                    problems.append(("aclose-raises", "final", repr(exc)[:120]))
+                    return
         if not src.released:
             problems.append(("source-not-released-after-close", "final", ""))
 
